@@ -201,7 +201,7 @@ Qed.
 
 (** * Blobs, XML section, header, CRC validation *)
 Lemma sp_copy_loop : forall fuel want acc, spT (copy_loop fuel want acc).
-Proof. induction fuel as [|f IH]; intros want acc; cbn [copy_loop]; sp_tac. apply IH. Qed.
+Proof. induction fuel as [|f IH]; intros want acc; cbn [copy_loop]; sp_tac. Qed.
 #[export] Hint Resolve sp_copy_loop : sp_db.
 
 Lemma sp_blob_read ls offset length : spT (blob_read ls offset length).
@@ -220,7 +220,7 @@ Qed.
 Lemma sp_header_read_paged : spT header_read_paged.
 Proof.
   unfold header_read_paged. apply spT_bind; [apply spT_rd|intros data].
-  apply sp_rlift. pose proof (header_parse_no_panic data). destruct (header_parse data); cbn; auto.
+  apply sp_rlift. pose proof (header_parse_no_panic data). destruct (header_parse data); cbn; try exact I; congruence.
 Qed.
 #[export] Hint Resolve sp_header_read_paged : sp_db.
 
@@ -231,7 +231,7 @@ Lemma sp_raw_xml_paged : spT raw_xml_paged.
 Proof. unfold raw_xml_paged. sp_tac. Qed.
 
 Lemma sp_validate_loop : forall fuel ps, spT (validate_loop fuel ps).
-Proof. induction fuel as [|f IH]; intros ps; cbn [validate_loop]; sp_tac. apply IH. Qed.
+Proof. induction fuel as [|f IH]; intros ps; cbn [validate_loop]; sp_tac. Qed.
 
 (** * The raw device and [PagedReader::new] *)
 Lemma d_read_exact_loop_no_panic : forall fuel want acc d, snd (d_read_exact_loop fuel want acc d) <> Panic.
@@ -264,7 +264,7 @@ Proof.
   pose proof (relabel_no_panic ERead (d_seek_start off) d (d_seek_start_no_panic off d)) as H.
   destruct (relabel ERead (d_seek_start off) d) as [d1 [x|k|]]; cbn [snd] in *; try congruence.
   pose proof (relabel_no_panic ERead (d_read_exact 8) d1 (d_read_exact_no_panic 8 d1)) as H2.
-  destruct (relabel ERead (d_read_exact 8) d1) as [d2 [b|k|]]; cbn [snd] in *; congruence.
+  destruct (relabel ERead (d_read_exact 8) d1) as [d2 [b|k|]]; cbn in *; congruence.
 Qed.
 
 Lemma pr_new_no_panic ps d : snd (pr_new ps d) <> Panic.
